@@ -200,13 +200,13 @@ reference to the list object that a producer took once and that is live (the obj
 still the field's value) — each logged exactly once, in order. -/
 theorem C22_streak_fifo_once (s : S1) (h : List Op) (hf : Fresh s) (hr : s.log.rule = .streak)
     (hp : proto .stopped h = true) (tag : String) (sid : Nat) (rest : Dict Nat) (q : String)
-    (qs : List String) (items : List Elem) (hl : s.log.loggees = (tag, sid) :: rest)
+    (qs : List String) (dq : Bool) (items : List Elem) (hl : s.log.loggees = (tag, sid) :: rest)
     (hfl : dget s.log.fields tag = some (q :: qs))
-    (hq : dget (s.world.shares sid).data q = some (.list items))
+    (hq : dget (s.world.shares sid).data q = some (.list dq items))
     (hno : noOverwrite sid q h = true) :
     (s.exec h).recs.map (·.cells) ++ (pending (s.exec h).world sid q).map (fun e => [some e.toVal]) =
       s.recs.map (·.cells) ++ (items ++ queued s sid q h).map (fun e => [some e.toVal]) := by
-  have := streak_exec s h hf.inv hr (by rw [hf.status]; exact hp) tag sid rest q qs items hl hfl hq hno
+  have := streak_exec s h hf.inv hr (by rw [hf.status]; exact hp) tag sid rest q qs dq items hl hfl hq hno
   simp only [streakPhi] at this
   rw [this]
   simp [pending, hq, List.append_assoc]
@@ -214,11 +214,11 @@ theorem C22_streak_fifo_once (s : S1) (h : List Op) (hf : Fresh s) (hr : s.log.r
 /-- … and a run leaves the queue empty -/
 theorem C22_streak_empty_after_run (s : S1) (c : Ctl) (hi : Inv s) (hr : s.log.rule = .streak)
     (hc : ctlOk s.status c = true) (hrun : isRun s.status c = true)
-    (tag : String) (sid : Nat) (rest : Dict Nat) (q : String) (qs : List String) (items : List Elem)
+    (tag : String) (sid : Nat) (rest : Dict Nat) (q : String) (qs : List String) (dq : Bool) (items : List Elem)
     (hl : s.log.loggees = (tag, sid) :: rest) (hfl : dget s.log.fields tag = some (q :: qs))
-    (hq : dget (s.world.shares sid).data q = some (.list items)) :
+    (hq : dget (s.world.shares sid).data q = some (.list dq items)) :
     pending (s.step (.ctl c)).1.world sid q = [] :=
-  (streak_step s (.ctl c) hi hr (by intro c' h; cases h; exact hc) tag sid rest q qs items hl hfl hq rfl).2.2.2
+  (streak_step s (.ctl c) hi hr (by intro c' h; cases h; exact hc) tag sid rest q qs dq items hl hfl hq rfl).2.2.2
     c rfl hrun
 
 /-- **streak on a mapping-valued queue** (`dict` / `odict` in the named field): a run logs one
@@ -258,10 +258,37 @@ theorem C22_run_keeps_held_objects (s : S1) (c : Ctl) (hi : Inv s) (hc : ctlOk s
     (s.step (.ctl c)).1.world.held = s.world.held :=
   ctl_held s c hi hc
 
+/-- **a mapping-valued queue over a whole history** (a streak log whose field list names field `q`
+holding a `dict` / `odict`; histories that do not rebind the field): the records written are exactly
+those of the reference queue `mapQueue` — an item assignment `share[q][k] = a`, through the share or
+through a live reference to the mapping, queues `(k, a)` behind the waiting items (new key) or
+replaces the value of the waiting item (`C22_mapping_setitem_queues`); every logger run logs each
+waiting item once, in insertion order, and leaves none — and the field holds what still waits. -/
+theorem C22_streak_mapping_history (s : S1) (h : List Op) (hf : Fresh s) (hr : s.log.rule = .streak)
+    (hp : proto .stopped h = true) (tag : String) (sid : Nat) (rest : Dict Nat) (q : String)
+    (qs : List String) (o : Bool) (d : Dict Atom) (hl : s.log.loggees = (tag, sid) :: rest)
+    (hfl : dget s.log.fields tag = some (q :: qs))
+    (hq : dget (s.world.shares sid).data q = some (.dict o d))
+    (hno : noOverwrite sid q h = true) :
+    (s.exec h).recs.map (·.cells) =
+      s.recs.map (·.cells) ++ (mapQueue s sid q d h).1.map (fun e => [some e.toVal]) ∧
+    dget ((s.exec h).world.shares sid).data q = some (.dict o (mapQueue s sid q d h).2) :=
+  mapping_exec s h hf.inv hr (by rw [hf.status]; exact hp) tag sid rest q qs o d hl hfl hq hno
+
+/-- **held references stay live**: over any history that follows the runner protocol and in which
+the producer does not rebind field `q` of share `sid` (no `write` / `poke` of it), every reference a
+producer holds to that field's container — taken before or during the history — still names the
+field's own value at the end: no logger run, of whatever rule, ever binds the field to another
+object (so what is appended through the reference is seen by the next run, `C22_streak_fifo_once`). -/
+theorem C22_held_refs_stay_live (s : S1) (h : List Op) (hf : Fresh s) (hp : proto .stopped h = true)
+    (sid : Nat) (q : String) (hno : noOverwrite sid q h = true) (hl : refsLive s.world sid q) :
+    refsLive (s.exec h).world sid q :=
+  refsLive_exec s h hf.inv (by rw [hf.status]; exact hp) sid q hno hl
+
 def qLog (r : Rule) : Log :=
   { rule := r, base := "q", loggees := [("x", 3)], fields := [("x", ["q"])] }
 def qS (r : Rule) : S1 :=
-  { world := ({ stamp := some 0 } : World).apply (.poke 3 "q" (.list [.atom (.int 7)])), log := qLog r }
+  { world := ({ stamp := some 0 } : World).apply (.poke 3 "q" (.list false [.atom (.int 7)])), log := qLog r }
 def qH : List Op :=
   [.w (.append 3 "q" (.tuple [.int 1, .str "x"])), .w (.push 3 (.map [("q", .tuple [.int 5, .none])])),
    .w (.push 3 (.other (.atom .none))), .w (.push 3 (.other (.tuple []))), .ctl .start,
@@ -273,10 +300,19 @@ example : Fresh (qS .streak) ∧ proto .stopped qH = true ∧ noOverwrite 3 "q" 
 /-- tuples of length 2, 0 and 1 and a nested list are each logged once, as one value -/
 example : ((qS .streak).exec qH).recs.map (·.cells) =
     [[some (.atom (.int 7))], [some (.tuple [.int 1, .str "x"])], [some (.tuple [])], [some (.tuple [.int 2])],
-     [some (.list [.atom (.int 3), .atom (.int 3)])]] ∧
+     [some (.list false [.atom (.int 3), .atom (.int 3)])]] ∧
     pending ((qS .streak).exec qH).world 3 "q" = [.atom (.int 4)] := by decide
 /-- a tuple-valued deck field is one value (fix D54) -/
 example : ((qS .deck).exec qH).recs.map (·.cells) = [[some (.tuple [.int 5, .none])], [none]] := by decide
+
+/-- a `deque`-valued queue behaves as the list: FIFO, each element once, emptied in place (it stays a deque) -/
+def dqS : S1 :=
+  { world := ({ stamp := some 0 } : World).apply (.poke 3 "q" (.list true [.atom (.int 7), .tuple [.int 8]])),
+    log := qLog .streak }
+example : (dqS.exec qH).recs.map (·.cells) =
+    [[some (.atom (.int 7))], [some (.tuple [.int 8])], [some (.tuple [.int 1, .str "x"])], [some (.tuple [])],
+     [some (.tuple [.int 2])], [some (.list false [.atom (.int 3), .atom (.int 3)])]] ∧
+    dget ((dqS.exec qH).world.shares 3).data "q" = some (.list true [.atom (.int 4)]) := by decide
 
 /-- a mapping-valued queue: the items come out as `(key, value)` tuples, in insertion order -/
 def mS : S1 :=
@@ -303,9 +339,24 @@ example : ((qS .streak).exec hH).recs.map (·.cells) =
     pending ((qS .streak).exec hH).world 3 "q" = [] := by decide
 example : queued (qS .streak) 3 "q" hH = [.atom (.int 1), .atom (.int 2), .tuple [.int 3]] := by decide
 example : (((qS .streak).exec
-    [.w (.hold 3 "q"), .ctl .start, .w (.poke 3 "q" (.list [])), .w (.happend 0 (.atom (.int 1))),
+    [.w (.hold 3 "q"), .ctl .start, .w (.poke 3 "q" (.list false [])), .w (.happend 0 (.atom (.int 1))),
      .w (.hold 3 "q"), .w (.happend 1 (.atom (.int 2))), .ctl .run]).recs.map (·.cells)) =
     [[some (.atom (.int 7))], [some (.atom (.int 2))]] := by decide
+
+/-- the reference mapping queue on a history with assignments through the share and through a held
+reference, a replaced waiting item (`a`) and a key queued again after it was logged (`b`) -/
+def mH2 : List Op :=
+  [.w (.hold 3 "q"), .ctl .start, .w (.setitem 3 "q" "c" (.str "x")), .w (.hsetitem 0 "a" (.int 9)),
+   .w (.hsetitem 0 "c" (.int 0)), .w (.advance 1), .ctl .run, .w (.hsetitem 0 "b" (.int 2)), .ctl .stop,
+   .w (.setitem 3 "q" "z" .none)]
+example : Fresh mS ∧ proto .stopped mH2 = true ∧ noOverwrite 3 "q" mH2 = true ∧ refsLive mS.world 3 "q" :=
+  ⟨⟨rfl, rfl, rfl, rfl, rfl, rfl⟩, by decide, by decide, by intro h hm; cases hm⟩
+example : mapQueue mS 3 "q" [("b", .int 1), ("a", .none)] mH2 =
+    ([.tuple [.str "b", .int 1], .tuple [.str "a", .none], .tuple [.str "c", .int 0], .tuple [.str "a", .int 9],
+      .tuple [.str "b", .int 2]], [("z", .none)]) := by decide
+example : (mS.exec mH2).recs.map (·.cells) =
+    [[some (.tuple [.str "b", .int 1])], [some (.tuple [.str "a", .none])], [some (.tuple [.str "c", .int 0])],
+     [some (.tuple [.str "a", .int 9])], [some (.tuple [.str "b", .int 2])]] := by decide
 
 /-! ## one header per new file -/
 
